@@ -296,9 +296,9 @@ func (s *subVector) Index(i int) (any, bool) {
 }
 
 func (s *subVector) Assoc(i int, val any) Vector {
-	if i < 0 || s.begin+i > s.end {
+	if i < 0 || i > s.Len() {
 		return nil
-	} else if s.begin+i == s.end {
+	} else if i == s.Len() {
 		return s.Conj(val)
 	}
 	return s.v.Assoc(s.begin+i, val).SubVector(s.begin, s.end)
